@@ -323,6 +323,35 @@ def h_account(ctx, n_acc, which, scenario='honest', twin=None, extra_cur=False):
         ctx.require(_raises(lambda: run(acc_real, rh)), 'a different block hash is rejected')
     elif scenario == 'state_tampered':
         ctx.require(_raises(lambda: run(acc_real)), 'a state that is not the one committed by the block is rejected')
+    elif scenario in ('header_forged_level', 'state_forged_level'):
+        # the attacker re-encodes the new-state child of the Merkle update as a pruned branch of level mask 0b11: its level-1
+        # hash (the one the update cell's own hash is computed from) stays genuine, its level-0 hash is attacker-chosen
+        upd = blk.refs[2]
+        genuine_child = upd.refs[1]
+        if scenario == 'header_forged_level':
+            forged_hash, forged_depth = ctx.bytes_('forged', 32), ctx.uint('forged_depth', 10)
+        else:
+            tampered = mk_state(ctx, n_acc, which, tamper='state_field', extra_cur=extra_cur)[1]
+            forged_hash, forged_depth = cell_hash(tampered, 0), cell_depth(tampered, 0)
+        child = SC(PRUNED, pruned_bits(3, [forged_hash, cell_hash(genuine_child, 1)], [forged_depth, cell_depth(genuine_child, 1)]), [])
+        upd2 = SC(MUPD, upd.bits, [upd.refs[0], child])
+        blk2 = warm(SC(ORD, blk.bits, [prune(blk.refs[0], 1), prune(blk.refs[1], 1), upd2, prune(blk.refs[3], 1)]))
+        ctx.require(cell_hash(blk2, 0) == root_hash, 'oracle: the re-encoded block keeps the block hash')
+        p1f = to_real(warm(merkle_proof(blk2)))
+        if scenario == 'header_forged_level':
+            try:
+                got = CP.check_block_header_proof(p1f.refs[0], root_hash, True)
+                ok = got == cell_hash(new_state, 0)
+            except Exception:
+                ok = True
+            ctx.known('header_proof_returns_unbound_level0_hash', True)
+            ctx.require(ok, 'a block header proof yields only the state hash the block commits to')
+        else:
+            p2f = to_real(warm(merkle_proof(tampered)))
+            boc2 = _two_roots(ctx, p1f, p2f)
+            ctx.known('header_proof_returns_unbound_level0_hash', True)
+            ctx.require(_raises(lambda: CP.check_account_proof(boc2, BlockIdExt(0, None, 1, root_hash, file_hash), addr, acc_real)),
+                        'a state that is not committed by the block is rejected even when the update child is re-encoded with two levels')
     elif scenario == 'header':
         got = CP.check_block_header_proof(p1.refs[0], root_hash, True)
         ctx.require(got == cell_hash(new_state, 0), 'block header proof returns the hash of the new state')
@@ -392,7 +421,7 @@ def instances(tier, seed):
                 yield 'h_generic', dict(tree=tree, prune=list(pr), scenario='subst_pruned')
     for n_acc in (1, 2, 3):
         for which in range(n_acc):
-            for sc in ('honest', 'other_account', 'pruned_carrier', 'other_block_hash', 'state_tampered', 'header'):
+            for sc in ('honest', 'other_account', 'pruned_carrier', 'other_block_hash', 'state_tampered', 'header', 'header_forged_level', 'state_forged_level'):
                 yield 'h_account', dict(n_acc=n_acc, which=which, scenario=sc)
     for sc in ('honest', 'other_account', 'pruned_carrier'):
         yield 'h_account', dict(n_acc=2, which=1, scenario=sc, extra_cur=True)
